@@ -129,20 +129,46 @@ fn generators_receive(expect: &Value, key: u64) -> Option<Value> {
         let _ = std::fs::write(dir.join(format!("{name}.json")), json!({"beh": "ok0", "index": 1}).to_string());
         argv.extend(["-G".into(), format!("{}{}", g.display(), written(p))]);
     }
+    // the first working generator once more, with one more pair: every -G is a generator run of its own
+    let mut again: Vec<(String, String)> = pairs.clone();
+    again.push(("again".to_owned(), "1".to_owned()));
+    argv.extend(["-G".into(), format!("{}{}", dir.join("gen1").display(), written(&again))]);
     let res = crate::fam_driver::run_limited(std::process::Command::new(crate::fam_driver::slicec_bin()).args(&argv).current_dir(&dir), std::time::Duration::from_secs(20));
     let read = |name: &str| std::fs::read(dir.join(format!("{name}.stdin"))).ok();
-    let (one, two) = (read("gen1"), read("gen2"));
+    // what each process started under the path of gen1 read
+    let per_process = |dir: &std::path::Path| -> Vec<Vec<u8>> {
+        let mut v: Vec<Vec<u8>> = std::fs::read_dir(dir)
+            .map(|rd| rd.flatten().filter(|e| e.file_name().to_string_lossy().starts_with("gen1.stdin.")).filter_map(|e| std::fs::read(e.path()).ok()).collect())
+            .unwrap_or_default();
+        v.sort();
+        v
+    };
+    let gen1_runs = per_process(&dir);
+    let (own1, own_again) = (crate::fam_driver::encode_args(&pairs), crate::fam_driver::encode_args(&again));
+    let two = read("gen2");
+    // (for the checks below) the run of gen1 that was given the plain pairs
+    let one = gen1_runs.iter().find(|c| c.ends_with(&own1) && !c.ends_with(&own_again)).cloned();
+    let twice_ok = gen1_runs.len() == 2 && gen1_runs.iter().filter(|c| c.ends_with(&own_again)).count() == 1 && one.is_some();
+    for e in std::fs::read_dir(&dir).into_iter().flatten().flatten() {
+        if e.file_name().to_string_lossy().starts_with("gen1.stdin.") {
+            let _ = std::fs::remove_file(e.path());
+        }
+    }
     // the same first generator alone: what it reads does not depend on which other generators were listed
     let _ = std::fs::remove_file(dir.join("gen1.stdin"));
     let alone_argv: Vec<String> = vec!["x.slice".into(), "--diagnostic-format".into(), "json".into(), "-G".into(), format!("{}{}", dir.join("gen1").display(), written(&pairs))];
     let _ = crate::fam_driver::run_limited(std::process::Command::new(crate::fam_driver::slicec_bin()).args(&alone_argv).current_dir(&dir), std::time::Duration::from_secs(20));
     let alone = read("gen1");
     let fail = (|| {
+        if !twice_ok && !gen1_runs.is_empty() {
+            return Some(json!({"kind": "mismatch", "what": "a generator listed twice with different arguments is run once for each -G, each time with the arguments written there",
+                               "runs_of_gen1": gen1_runs.len(), "exit": format!("{:?}", res.status)}));
+        }
         let (Some(one), Some(two)) = (one, two) else {
             return Some(json!({"kind": "mismatch", "what": "a generator listed after one that cannot be started was not run (or got nothing)",
                                "exit": format!("{:?}", res.status), "stderr": String::from_utf8_lossy(&res.stderr).chars().take(400).collect::<String>()}));
         };
-        let (own1, own2) = (crate::fam_driver::encode_args(&pairs), crate::fam_driver::encode_args(&other));
+        let own2 = crate::fam_driver::encode_args(&other);
         if !one.ends_with(&own1) || !two.ends_with(&own2) {
             return Some(mismatch("the pairs a generator reads behind the request (exactly those written for it, in order)", json!({"gen1": pairs, "gen2": other}),
                                  json!({"gen1_tail": one[one.len().saturating_sub(own1.len() + 8)..].to_vec(), "gen2_tail": two[two.len().saturating_sub(own2.len() + 8)..].to_vec()})));
